@@ -9,7 +9,7 @@
     [st_supply] is the model's bank supply (mint / burn), [st_win] the ghost "incoming amount
     completed since the last window reset".  Asset parameters do not change inside a history
     (there is no parameter-update operation; [reachable_invariant] states [st_params] stays [P]). *)
-From Irismod Require Import Htlc.Model Htlc.Proofs Htlc.Examples Htlc.Check Htlc.Sound.
+From Irismod Require Import Htlc.Model Htlc.Proofs Htlc.Examples Htlc.Check Htlc.Sound Htlc.Passes Htlc.PassesEx.
 
 (** ** Inv_C04 holds in every reachable state (induction over the history: [Inv] holds at
     genesis and is preserved by every message and every block boundary) *)
@@ -119,6 +119,29 @@ Theorem c04_checked_states_satisfy_invariant :
     /\ st_params (case_state k n) = k_params k.
 Proof. exact checked_states_satisfy_invariant. Qed.
 Print Assumptions c04_checked_states_satisfy_invariant.
+
+(** ** model_passes_check: the checker, fed the MODEL's own observations, answers (-1, -1, 0) for both
+    properties.  [Vw k nd s code o] says that the observation [o] is the projection of the model state
+    [s] (contracts by table position, queue, balance sheet of the case's accounts over [nd] denoms, asset
+    supplies, bank supplies, clock) with result code [code]; [trace_ok] says that every step's diff
+    decodes to the projection of the model's next state; [table_ok]: the id table has no duplicates, at
+    most 100 actors, distinct asset denoms, parties of the table's ids inside the universe and no
+    negative denoms.  Consequence: on code that agrees with the model the check can not raise an alarm,
+    and the clauses of [p03] / [p04] are consequences of the invariant. *)
+Theorem c04_model_passes_check :
+  forall (k : case) (nd : nat),
+    hyps_b k = true -> table_ok k ->
+    Vw k nd (case_init k) 0 (k_obs0 k) ->
+    trace_ok k nd (case_init k) (k_obs0 k) (k_steps k) ->
+    check_case_C03 k = (-1, -1, 0) /\ check_case_C04 k = (-1, -1, 0).
+Proof. exact model_passes_check_lemma. Qed.
+Print Assumptions c04_model_passes_check.
+
+(** its hypotheses hold of a concrete case built from the model's run of the example history *)
+Example c04_model_passes_check_nonvacuous :
+  hyps_b exCase = true /\ table_ok exCase /\ Vw exCase 5 (case_init exCase) 0 (k_obs0 exCase)
+  /\ trace_ok exCase 5 (case_init exCase) (k_obs0 exCase) (k_steps exCase) /\ length (k_steps exCase) = 13%nat.
+Proof. split; [exact exCase_hyps|]. split; [exact exCase_table|]. split; [exact exCase_init_view|]. split; [exact exCase_trace|reflexivity]. Qed.
 
 (** ** Non-vacuity: the concrete history of [Htlc/Examples.v] satisfies the hypotheses and reaches
     non-trivial values of every counter (an incoming transfer of 200 is pending, then completed;
